@@ -65,8 +65,19 @@ States == TLCEval({[c |-> c, ls |-> x, ws |-> y] : c \in Conds, x \in BOOLEAN, y
 -----------------------------------------------------------------------------
 \* The property ---------------------------------------------------------------
 
-\* the checkpoint verifies under the key and the name in the log's metadata
-LogVerifies(c) == c.lmeta = "ok" /\ c.lcp = "ok"
+\* the checkpoint verifies under the key and the name in the log's metadata:
+\* the metadata is readable, the checkpoint is an intact signed note, and the
+\* key and the name it was signed with are the ones the metadata carries (so a
+\* checkpoint re-signed with the very key a rewritten metadata file carries
+\* does verify: the two deviations cancel)
+MetaKey(c) == IF c.lmeta = "otherkey" THEN "K2" ELSE "K"
+MetaName(c) == IF c.lmeta = "othername" THEN "renamed" ELSE "name"
+CpKey(c) == IF c.lcp = "resigned" THEN "K2" ELSE "K"
+CpName(c) == IF c.lcp = "renamed" THEN "renamed" ELSE "name"
+LogVerifies(c) ==
+    /\ c.lmeta \in {"ok", "otherkey", "othername"}
+    /\ c.lcp \in {"ok", "resigned", "renamed"}
+    /\ MetaKey(c) = CpKey(c) /\ MetaName(c) = CpName(c)
 LogGreen(c) ==
     /\ LogVerifies(c)
     /\ \/ c.lage = "fresh"
@@ -120,7 +131,7 @@ Verdict(s, a) ==
 LogErr(c) ==
     IF c.lmeta \in {"missing", "garbage"} THEN "metadata"
     ELSE IF c.lcp = "missing" THEN "read"
-    ELSE IF c.lmeta # "ok" \/ c.lcp # "ok" THEN "verify"
+    ELSE IF ~LogVerifies(c) THEN "verify"
     ELSE IF c.lro = "past" THEN (IF c.lfinal = "match" THEN "sunset" ELSE "final")
     ELSE IF c.lage = "stale" THEN "old" ELSE "none"
 
